@@ -62,7 +62,10 @@ class Spec:
         # the LAST frame of the batch split 12 + 5 (its final piece is shorter than a frame header)
         split += ["rxsplitlast:" + "+".join(c) for c in itertools.product(["S2", "P1"], ["P0", "A3"])] + ["rxsplitlast:P2", "rxsplitlast:A0"]
         split += ["pump"]
-        self.menu = batches + split + ["api:%d" % i for i in range(len(API_PAYLOADS))] + ["req", "rxbad"]
+        # PINGs whose answers have not been collected when a connection error follows (same chunk / next chunk): the answers
+        # are owed all the same, in front of the GOAWAY; and a sized read + clear_outbound_data_buffer before further traffic
+        self.menu = batches + split + ["api:%d" % i for i in range(len(API_PAYLOADS))] + ["req", "rxbad", "rxbad:same", "rxbad:next",
+                                                                                          "partialclear"]
 
     def initial(self):
         out = []
@@ -148,6 +151,38 @@ class Spec:
                 st.next_local_sid += 2
                 st.open_req.append(sid)
             return Step("req-" + o.kind, viols)
+        if lab == "partialclear":
+            try:
+                conn.ping(b"DISCARD!")
+            except Exception:  # noqa: BLE001
+                return Step("partialclear-not-possible", viols, prune=True)
+            first = conn.data_to_send(5)
+            conn.clear_outbound_data_buffer()
+            if first != wire.ping(b"DISCARD!").serialize()[:5] or conn.data_to_send():
+                bad("partial-read-wrong", "data_to_send(5) -> %r, then clear_outbound_data_buffer left output behind" % first)
+            return Step("partialclear", viols)
+        if lab in ("rxbad:same", "rxbad:next"):
+            pre = wire.PREFACE if st.need_preface else b""
+            pings = wire.ping(PAYLOADS[2]).serialize() + wire.ping(PAYLOADS[3]).serialize()
+            badf = wire.raw(wire.PING, 0, 0, b"1234567").serialize()
+            st.closed = True
+            if lab == "rxbad:same":
+                o = H.recv(conn, pre + pings + badf)
+            else:
+                try:
+                    conn.receive_data(pre + pings)            # answers queued, not collected
+                except Exception as e:  # noqa: BLE001
+                    bad("valid-batch-rejected", "two PINGs rejected: %r" % e, exc=type(e).__name__)
+                    return Step("rx-raise", viols, prune=True)
+                o = H.recv(conn, badf)
+            acks = [f.f["opaque"] for f in o.frames if f.type == wire.PING and f.f["ack"]]
+            kinds = [f.name for f in o.frames]
+            if o.kind != "raise" or not o.is_proto:
+                bad("short-ping-accepted", "7-byte PING -> %s" % o.brief())
+            elif acks != [PAYLOADS[2], PAYLOADS[3]] or o.wire_error or kinds[-1:] != ["GOAWAY"]:
+                bad("ping-acks", "two PINGs received before a connection error (%s): output %s%s" % (
+                    lab, kinds, " " + o.wire_error if o.wire_error else ""), n_expected=2, n_got=len(acks), same_multiset=False)
+            return Step("rx-conn-error", viols, prune=True)
         if lab == "rxbad":
             # a connection error (PING of wrong length) closes the connection:
             # afterwards C19 governs, the path ends here.
